@@ -1,0 +1,38 @@
+#ifndef NMTOOLS_VERIF_HPP
+#define NMTOOLS_VERIF_HPP
+
+// Verification hooks (guard: NMTOOLS_VERIF). With the guard off every macro expands to ((void)0).
+// With the guard on, a harness may install sinks (plain function pointers) that observe events which
+// have no observable return value: an element index checked against its extent, a bounded container
+// asked to hold more than its capacity, an evaluator returning early on a shape mismatch.
+
+#ifdef NMTOOLS_VERIF
+namespace nmtools::verif
+{
+    // site ids
+    enum : int {
+        SITE_UTL_ARRAY=1, SITE_UTL_STATIC_VECTOR=2, SITE_UTL_STATIC_VECTOR_CAP=3, SITE_UTL_VECTOR=4,
+        SITE_NDARRAY_INDEX=5, SITE_NDARRAY_BUFFER=6,
+        SITE_STATIC_VECTOR_CTOR=10, SITE_STATIC_VECTOR_RESIZE=11, SITE_STATIC_VECTOR_PUSH_BACK=12,
+        SITE_EVAL=20, SITE_EVAL_SIMD=21
+    };
+    inline void (*on_bounds)(int site, long long index, long long extent) = nullptr;
+    inline void (*on_capacity)(int site, long long wanted, long long capacity) = nullptr;
+    inline void (*on_eval_shape_mismatch)(int site) = nullptr;
+}
+#define NMTOOLS_VERIF_BOUNDS(site,i,n) \
+    do { if (!__builtin_is_constant_evaluated() && ::nmtools::verif::on_bounds) \
+        ::nmtools::verif::on_bounds((site),(long long)(i),(long long)(n)); } while(0)
+#define NMTOOLS_VERIF_CAPACITY(site,wanted,cap) \
+    do { if (!__builtin_is_constant_evaluated() && ::nmtools::verif::on_capacity && ((long long)(wanted) > (long long)(cap))) \
+        ::nmtools::verif::on_capacity((site),(long long)(wanted),(long long)(cap)); } while(0)
+#define NMTOOLS_VERIF_EVAL_SHAPE_MISMATCH(site) \
+    do { if (!__builtin_is_constant_evaluated() && ::nmtools::verif::on_eval_shape_mismatch) \
+        ::nmtools::verif::on_eval_shape_mismatch((site)); } while(0)
+#else
+#define NMTOOLS_VERIF_BOUNDS(site,i,n) ((void)0)
+#define NMTOOLS_VERIF_CAPACITY(site,wanted,cap) ((void)0)
+#define NMTOOLS_VERIF_EVAL_SHAPE_MISMATCH(site) ((void)0)
+#endif // NMTOOLS_VERIF
+
+#endif // NMTOOLS_VERIF_HPP
